@@ -14,9 +14,25 @@ import (
 	"github.com/fatih/color"
 )
 
+// simLog keeps the tail of what the server printed (errors of failed handlers end up here).
+type simLogBuf struct{ b []byte }
+
+func (l *simLogBuf) Write(p []byte) (int, error) {
+	l.b = append(l.b, p...)
+	if len(l.b) > 4096 {
+		l.b = l.b[len(l.b)-2048:]
+	}
+	return len(p), nil
+}
+
+var simLog = &simLogBuf{}
+
+func simLogTail() string { return string(simLog.b) }
+
 func simQuiet() {
-	color.Output = io.Discard
-	color.Error = io.Discard
+	color.NoColor = true
+	color.Output = simLog
+	color.Error = simLog
 	log.SetOutput(io.Discard)
 	if f, err := os.OpenFile(os.DevNull, os.O_WRONLY, 0); err == nil {
 		os.Stdout = f
